@@ -347,5 +347,23 @@ def main(argv=None):
     return 0
 
 
+def _main_guarded():
+    """exit 1 is reserved for 'violation found and replayed' (always with a VIOLATION line); anything that goes wrong in
+    the machinery itself is a harness error: exit 3"""
+    try:
+        rc = main()
+    except SystemExit as e:
+        if isinstance(e.code, int) or e.code is None:
+            raise
+        print("HARNESS-ERROR %s" % (e.code,))
+        return 3
+    except Exception:
+        import traceback
+        traceback.print_exc()
+        print("HARNESS-ERROR runner crashed (see traceback)")
+        return 3
+    return rc
+
+
 if __name__ == "__main__":
-    sys.exit(main())
+    sys.exit(_main_guarded())
